@@ -39,17 +39,19 @@ ASSUMPTIONS = ["AddressSanitizer + UndefinedBehaviorSanitizer (clang 14, -O1) re
                "recorded known findings are excluded, each with a strict replay in replays/C08/known/: UBSan reports whose (check kind, file, enclosing function) is in shim/c08_known_ub.inc are counted (known_ub_*) and the execution continues; an execution that dies with a signature listed in vp/c08_known.json (sanitizer kind @ function:file) is counted (known_finding_stops) and not reported; any other report is a violation",
                "the harness reads three engine counters (simulation, state, keycount) through the protected PhreeqcPtr for classification only"]
 TECHNIQUE = "coverage-guided fuzzing (libFuzzer, ASan+UBSan) + grammar-based property testing (Hypothesis) + enumerated fault injection, oracle inside the target"
-LEVEL_TEXT = ("Exploration: about 20 000 (quick) to 450 000 (thorough) sanitizer-checked executions per run, each under the four-clause oracle; "
+LEVEL_TEXT = ("Exploration: about 17 000 (quick) to 450 000 (thorough) sanitizer-checked executions per run, each under the four-clause oracle; "
               "the enumerated fault list is complete for the listed path kinds x streams x entry points but the property is universally quantified "
               "over byte sequences, so this is evidence, not proof.")
-FLOORS = {"quick": 6000, "thorough": 100000}
+FLOORS = {"quick": 5000, "thorough": 100000}
 SHARDS = {"quick": 8, "thorough": 16}
 
 # executions per fuzz job (bounded by count, never by wall clock).  Measured on this machine (clang 14, -O1, ASan+UBSan+
 # libFuzzer instrumentation): 40 executions per CPU-second for fuzz_run, 35 for fuzz_db (5 ms LoadDatabaseString of the
 # small database at the start of every execution + 6 ms reload and 1-20 ms probe after every failed call + the call itself),
-# 110 for the empty-corpus leg, 30 ms per grammar case.  Quick is sized for about 75 CPU-seconds per shard, thorough for 800.
-FUZZ_RUNS = {"quick": {"fuzz_run": 2600, "fuzz_db": 2200}, "thorough": {"fuzz_run": 28000, "fuzz_db": 24000}}
+# 110 for the empty-corpus leg, 30 ms per grammar case.  Quick is sized for about 55 CPU-seconds per shard (the replay tier
+# of core runs before the shards and costs about 1 s per file plus ~15-30 s for the non-converging kinetics regression),
+# thorough for 800 CPU-seconds per shard.
+FUZZ_RUNS = {"quick": {"fuzz_run": 2000, "fuzz_db": 1700}, "thorough": {"fuzz_run": 28000, "fuzz_db": 24000}}
 EMPTY_LEG_RUNS = {"quick": 400, "thorough": 4000}            # fuzz_run from an empty corpus (dictionary only), shard 0
 GRAMMAR_CASES = {"quick": 150, "thorough": 1500}              # per shard
 FUZZ_TIMEOUT_S = {"quick": 10, "thorough": 25}
@@ -64,7 +66,11 @@ SMALL_DB = os.path.join(lib.VERIF, "corpus", "small.dat")
 
 
 def prepare(tier):
+    # the parent run builds once; the replay processes it spawns inherit the marker and do not repeat the (0.5 s) check
+    if tier == "replay" and os.environ.get("VERIF_C08_BUILT") == lib.BUILD:
+        return
     lib.build("asan", ["fuzz_run", "fuzz_db", "apirunner_asan"])
+    os.environ["VERIF_C08_BUILT"] = lib.BUILD
 
 
 def bin_path(t):
